@@ -6,7 +6,7 @@ from common import show_ints, outcome
 
 PROP = 'C19'
 LEAN_TARGETS = ['Props.C19']
-REQUIRED_THEOREMS = ['Props.C19.randomsites_seeded', 'Props.C19.draws_seeded', 'Props.C19.seeded_noninterference']
+REQUIRED_THEOREMS = ['Props.C19.persistent_state_is_the_documented_one', 'Props.C19.randomsites_seeded', 'Props.C19.draws_seeded', 'Props.C19.seeded_noninterference']
 RULE = ('(a) draw signatures: every random-consuming API (rand/randn/normal/randint, nn.init, Linear/Conv constructors, Dropout, '
         'shuffled split) is called with np.random.* wrapped and the (function, count) sequence must equal the model; '
         '(b) seeded programs (random tensors, layers with init, dropout, shuffled split, 3 SGD/Adam steps, an integer fan-out graph and a '
@@ -23,7 +23,7 @@ FNS = ['rand', 'randn', 'normal', 'randint', 'uniform', 'shuffle']
 
 def extract():
     import extract as ex
-    return ex.write_random_sites()
+    return ex.write_random_sites() + ex.write_persistent_sites()
 
 
 def cases(rng, tier):
